@@ -40,6 +40,7 @@ fn run_case(case: &Value) -> Value {
             json!({"offer": o.to_string(), "spread": s.to_string(), "c": c.to_string()})
         }
         "bn" => bn_case(case),
+        "text" => text_case(case),
         "assert_operations" => {
             // route shape check on abstract asset labels: "n:<denom>" native, "t:<addr>" cw20
             let mk = |s: &str| -> haloswap::asset::AssetInfo {
@@ -73,6 +74,42 @@ fn run_case(case: &Value) -> Value {
             json!({"key": k.iter().map(|b| format!("{:02x}", b)).collect::<String>()})
         }
         _ => world::run_case(kind, case),
+    }
+}
+
+/// C18: text / JSON / width conversions of the bignumber types on the REAL code.  Decimals travel as raw atomics (decimal strings).
+fn text_case(case: &Value) -> Value {
+    let op = case["op"].as_str().unwrap_or("");
+    let s = case["s"].as_str().unwrap_or("");
+    match op {
+        "dec_parse" => match Decimal256::from_str(s) { Ok(d) => json!({"ok": Uint256(d.0).to_string()}), Err(e) => json!({"err": e.to_string()}) },
+        "uint_parse" => match Uint256::from_str(s) { Ok(d) => json!({"ok": d.to_string()}), Err(e) => json!({"err": e.to_string()}) },
+        "uint_try_from" => match Uint256::try_from(s) { Ok(d) => json!({"ok": d.to_string()}), Err(e) => json!({"err": e.to_string()}) },
+        "dec_render" => json!({"text": d256(&case["a"]).to_string()}),
+        "uint_render" => json!({"text": u256(&case["a"]).to_string(), "string_from": String::from(u256(&case["a"]))}),
+        "dec_json" => {
+            let d = d256(&case["a"]);
+            let j = serde_json::to_string(&d).unwrap();
+            let back: Result<Decimal256, _> = serde_json::from_str(&j);
+            json!({"json": j, "back": back.ok().map(|x| Uint256(x.0).to_string())})
+        }
+        "uint_json" => {
+            let d = u256(&case["a"]);
+            let j = serde_json::to_string(&d).unwrap();
+            let back: Result<Uint256, _> = serde_json::from_str(&j);
+            json!({"json": j, "back": back.ok().map(|x| x.to_string())})
+        }
+        "dec_json_parse" => { let back: Result<Decimal256, _> = serde_json::from_str(&serde_json::to_string(s).unwrap()); match back { Ok(d) => json!({"ok": Uint256(d.0).to_string()}), Err(_) => json!({"err": "rejected"}) } }
+        "uint_json_parse" => { let back: Result<Uint256, _> = serde_json::from_str(&serde_json::to_string(s).unwrap()); match back { Ok(d) => json!({"ok": d.to_string()}), Err(_) => json!({"err": "rejected"}) } }
+        // Decimal (128-bit, atomics given) -> Decimal256 and back
+        "dec_from_decimal" => { let d = cosmwasm_std::Decimal::from_atomics(Uint128::from(u128_of(&case["a"])), 18).unwrap(); json!({"ok": Uint256(Decimal256::from(d).0).to_string()}) }
+        "decimal_from_dec" => { let d: cosmwasm_std::Decimal = d256(&case["a"]).into(); json!({"ok": d.atomics().to_string()}) }
+        "uint128_from_uint" => { let x: Uint128 = u256(&case["a"]).into(); json!({"ok": x.to_string()}) }
+        "u128_from_uint" => { let x: u128 = u256(&case["a"]).into(); json!({"ok": x.to_string()}) }
+        "uint_from_u128" => json!({"ok": Uint256::from(u128_of(&case["a"])).to_string()}),
+        "uint_from_uint128" => json!({"ok": Uint256::from(Uint128::from(u128_of(&case["a"]))).to_string()}),
+        "uint_from_u64" => json!({"ok": Uint256::from(case["a"].as_str().unwrap().parse::<u64>().unwrap()).to_string()}),
+        _ => json!({"err": "unknown op"}),
     }
 }
 
